@@ -200,7 +200,7 @@ Tree(G, T, ctx, S, keep, fuel) ==
                            ELSE AutoTagged(env, T)
                    sub(i, m, mctx) ==
                      LET inner == Tree(G, m.t, mctx, S, keep, fuel - 1)
-                     IN [m EXCEPT !.t = IF auto THEN [inner EXCEPT !.tags = <<AutoTag(env, i, m.t, S)>> \o inner.tags]
+                     IN [m EXCEPT !.t = IF auto THEN [inner EXCEPT !.tags = <<AutoTag(env, i, m.t, S)>> \o @]
                                         ELSE inner]
                    off == [a \in 1..Len(T.adds) |-> nr + Len(AddMembers(SubSeq(T.adds, 1, a - 1)))]
                IN [T EXCEPT !.tags = <<>>,
@@ -215,7 +215,7 @@ Tree(G, T, ctx, S, keep, fuel) ==
                    nr == Len(T.root)
                    sub(i, a) ==
                      LET inner == Tree(G, a.t, ctx, S, keep, fuel - 1)
-                     IN [a EXCEPT !.t = IF auto THEN [inner EXCEPT !.tags = <<AutoTag(env, i, a.t, S)>> \o inner.tags]
+                     IN [a EXCEPT !.t = IF auto THEN [inner EXCEPT !.tags = <<AutoTag(env, i, a.t, S)>> \o @]
                                         ELSE inner]
                IN [T EXCEPT !.tags = <<>>,
                             !.root = Force([i \in 1..nr |-> sub(i, T.root[i])]),
@@ -224,7 +224,7 @@ Tree(G, T, ctx, S, keep, fuel) ==
                IF fuel = 0 THEN CutT
                ELSE [T EXCEPT !.tags = <<>>, !.e = Tree(G, T.e, ctx, S, keep, fuel - 1)]
           [] OTHER -> [T EXCEPT !.tags = <<>>]
-  IN [body EXCEPT !.tags = ctags \o body.tags]
+  IN [body EXCEPT !.tags = ctags \o @]
 
 ------------------------------------------------------------------------------
 (* Meaning and normal form                                                  *)
